@@ -177,7 +177,20 @@ def setup_execution(item, base):
     """Fresh handlers, loading tables and cache directory for one execution."""
     import odml.terminology as tm
     import odml.templates as tp
+    # the shims go in first: synchronisation objects the handlers create are controlled ones; those that
+    # exist already (module or class level) are replaced by fresh controlled twins
+    for mod in (tm, tp):
+        if not isinstance(mod.threading, sched.ThreadingShim):
+            mod.threading = sched.ThreadingShim()
+        for name in ("Thread", "Lock", "RLock", "Event", "Condition", "Semaphore", "BoundedSemaphore"):
+            if name in mod.__dict__ and getattr(sched._threading, name) is mod.__dict__[name]:
+                setattr(mod, name, getattr(sched.ThreadingShim, name))       # from threading import ...
+        if "time" in mod.__dict__ and not isinstance(mod.time, sched.TimeShim) and getattr(mod.time, "__name__", "") == "time":
+            mod.time = sched.TimeShim(mod.time)
+        if mod.__dict__.get("sleep") is time.sleep:
+            mod.sleep = sched.TimeShim(time).sleep
     CT, CP = make_handlers()
+    sched.adopt_primitives(tm, tp, tm.Terminologies, tp.TemplateHandler)
     CT.loading = sched.LoadingTable()
     CP.loading = sched.LoadingTable()
     CP.loading._table_name = "tloading"
@@ -188,8 +201,7 @@ def setup_execution(item, base):
             h.__dict__["loading"] = sched.LoadingTable(h.__dict__["loading"])
     tm.terminologies = th
     tm.load, tm.deferred_load, tm.refresh = th.load, th.deferred_load, th.refresh
-    tm.threading = sched.ThreadingShim()
-    tp.threading = sched.ThreadingShim()
+    sched.adopt_primitives(th, ph)
     ctx = Ctx()
     ctx.term, ctx.templ = th, ph
     ctx.base = base
@@ -398,6 +410,9 @@ def judge(item, s, refs):
     if s.deadlock:
         fail("deadlock", None, [(t.tid, t.state) for t in s.threads])
         return fails, "deadlock"
+    if getattr(s, "livelock", False):
+        fail("did-not-terminate", None, "polling loop still running after %d yields" % sched.MAX_YIELDS)
+        return fails, "livelock"
     if getattr(s, "timed_out", False):
         fail("did-not-terminate", None, None)
         return fails, "timeout"
